@@ -650,3 +650,71 @@ Proof.
   intros h h' l' cs [(-> & -> & ->)|(Hne & -> & ->)]; unfold rep; simpl; auto.
   rewrite nth_error_app_new. auto.
 Qed.
+
+(* ================================================================== Part 3: reference arguments *)
+(* reading `value` = __redu_list_get(s, i) after the allocation of the new block sees the same cell *)
+Lemma arg_ref_frame : forall h s cs2 i x, rep h s cs2 ->
+  arg_read (h ++ [x]) (ARef s i) = arg_read h (ARef s i).
+Proof.
+  intros h s cs2 i x Hs. simpl.
+  assert (Hs' : rep (h ++ [x]) s cs2).
+  { eapply rep_frame; eauto. intros b Eb. apply nth_error_app_old. eapply rep_bound; eauto. }
+  now rewrite (get_spec _ s cs2 i Hs'), (get_spec _ s cs2 i Hs).
+Qed.
+
+Lemma append_a_spec : forall h l cs a, rep h l cs ->
+  (forall x, arg_read (h ++ [x]) a = arg_read h a) ->
+  list_append_a h l a = (do _ <- arg_bind a; do v <- arg_read h a; list_append h l v).
+Proof.
+  intros h l cs a H Fr. unfold list_append_a. destruct (arg_bind a) as [[]|k0]; cbn [rbind]; [|reflexivity].
+  unfold list_append, alloc.
+  assert (Hsz : size l = length cs) by (eapply rep_size; eauto).
+  pose proof (copy_all_fresh h l cs [0%Z] H) as C.
+  replace (repeat 0%Z (size l + 1)) with (repeat 0%Z (length cs) ++ [0%Z]) by (rewrite Hsz, repeat_app; reflexivity).
+  rewrite C. cbn [rbind]. rewrite Fr.
+  destruct (arg_read h a) as [v|k]; cbn [rbind]; reflexivity.
+Qed.
+
+(* x.append(y[i]) - y any well-formed list of the same heap, in particular x itself *)
+Lemma append_ref_ok : forall h l cs s cs2 i, rep h l cs -> rep h s cs2 ->
+  match py_index (length cs2) i with
+  | Some k => exists h' l', list_append_a h l (ARef s i) = Safe (h', l') /\
+                            upd_ok h l h' l' (cs ++ [nth k cs2 0%Z])
+  | None => list_append_a h l (ARef s i) = Unsafe OutOfBounds
+  end.
+Proof.
+  intros h l cs s cs2 i H Hs.
+  rewrite (append_a_spec h l cs (ARef s i) H) by (intros x; eapply arg_ref_frame; eauto).
+  assert (B : py_index (length cs2) i <> None -> arg_bind (ARef s i) = Safe tt).
+  { intros N. simpl. unfold rep in Hs. destruct (data s); auto. destruct Hs as (_ & ->).
+    exfalso. apply N. unfold py_index. simpl. destruct (0 <=? i)%Z eqn:E1; destruct (i <? 0)%Z eqn:E2; auto.
+    apply Z.leb_le in E1. apply Z.ltb_lt in E2. lia. }
+  simpl arg_read. rewrite (get_spec h s cs2 i Hs).
+  destruct (py_index (length cs2) i) as [k|].
+  - rewrite B by discriminate. cbn [rbind]. apply (append_ok h l cs _ H).
+  - destruct (arg_bind (ARef s i)) as [[]|k0] eqn:EB; cbn [rbind]; [reflexivity|].
+    simpl in EB. destruct (data s); congruence.
+Qed.
+
+Lemma remove_ref_ok : forall h l cs s cs2 i, rep h l cs -> rep h s cs2 ->
+  (exists h' l' cs', list_remove_a h l (ARef s i) = Safe (h', l') /\ upd_ok h l h' l' cs' /\
+     (forall k, py_index (length cs2) i = Some k ->
+        cs' = match remove_first (nth k cs2 0%Z) cs with Some c => c | None => cs end))
+  \/ (list_remove_a h l (ARef s i) = Unsafe OutOfBounds /\ py_index (length cs2) i = None).
+Proof.
+  intros h l cs s cs2 i H Hs. unfold list_remove_a.
+  destruct (arg_bind (ARef s i)) as [[]|k0] eqn:EB; cbn [rbind].
+  2:{ right. simpl in EB. unfold rep in Hs. destruct (data s); [discriminate|]. destruct Hs as (_ & ->).
+      injection EB as <-. split; auto. unfold py_index. simpl.
+      destruct (0 <=? i)%Z eqn:E1; destruct (i <? 0)%Z eqn:E2; auto.
+      apply Z.leb_le in E1. apply Z.ltb_lt in E2. lia. }
+  destruct (size l =? 0) eqn:E.
+  - left. exists h, l, cs. split; [reflexivity|]. split; [now apply upd_ok_refl|].
+    intros k _. apply Nat.eqb_eq in E. rewrite (rep_size h l cs H) in E.
+    destruct cs; simpl in *; [reflexivity | discriminate].
+  - simpl arg_read. rewrite (get_spec h s cs2 i Hs).
+    destruct (py_index (length cs2) i) as [k|]; cbn [rbind]; [|right; auto].
+    left. destruct (remove_ok h l cs (nth k cs2 0%Z) H) as (h' & l' & E1 & U).
+    do 3 eexists. split; [exact E1|]. split; [exact U|].
+    intros k0 Hk. now injection Hk as <-.
+Qed.
